@@ -629,3 +629,30 @@ Proof.
   { unfold st. apply steps_inv; [apply subinv_step|apply subinv_init; exact S]. }
   rewrite (submit_not_waiting th _ (Sv _ _ Ht n)) in X. discriminate.
 Qed.
+
+(* ------------------------------------------------------------------ the submission path never reads _run_loop *)
+Definition with_run (b : bool) (h : shared) : shared := h <| h_run := b |>.
+
+Lemma estep_ignores_run : forall t s e h b,
+  estep t s e (with_run b h) =
+  match estep t s e h with None => None | Some (e', h') => Some (e', with_run b h') end.
+Proof.
+  intros t s e h b. destruct h. unfold with_run.
+  destruct e; unfold estep, lbl; cbn;
+    repeat match goal with |- context [match ?x with _ => _ end] => destruct x end; reflexivity.
+Qed.
+
+(* a thread that only submits: its step is the same whatever the flag is, and leaves the flag alone *)
+Lemma submit_ignores_run : forall t th h b, submit_thread th = true ->
+  tstep t th (with_run b h) =
+  match tstep t th h with None => None | Some (th', h') => Some (th', with_run b h') end.
+Proof.
+  intros t [prog p] h b S. unfold submit_thread in S. cbn [t_pc t_prog] in S.
+  apply andb_true_iff in S. destruct S as [S1 S2].
+  destruct p; try discriminate S2; unfold tstep; cbn [t_pc t_prog].
+  - destruct prog as [|a r]; [reflexivity|]. cbn [forallb] in S1. apply andb_true_iff in S1. destruct S1 as [Sa _].
+    destruct a; try discriminate Sa. unfold start, enq. rewrite estep_ignores_run.
+    destruct (estep t s EFq h) as [[[e'|] h']|]; reflexivity.
+  - unfold cont, enq. rewrite estep_ignores_run.
+    destruct (estep t s e h) as [[[e'|] h']|]; reflexivity.
+Qed.
